@@ -135,7 +135,7 @@ func (leapolkey) Gen(rng *rand.Rand, tier string) []Case {
 				lnPick(rng, 0, 1, 3, 4, 255), rng.Intn(2), rng.Intn(2), rng.Intn(2), rng.Intn(2), rng.Intn(2), rng.Intn(2), enc, rng.Intn(2), lnPick(rng, 0, 16, 32, 65535), u64(),
 				hexn(lnPick(rng, 32, 32, 32, 0, 31, 33)), hexn(lnPick(rng, 16, 16, 16, 0, 15, 17)), u64(), u64(), hexn(lnPick(rng, 16, 16, 16, 0, 1, 20)), kdl, hexn(ekd))
 		},
-		seeds: lnEthSeeds(0x888e),
+		seeds: ekSeeds(),
 		extra: func(rng *rand.Rand, add func(ops ...string)) {
 			res := func() string { return lnHex(ekBuild(rng, 0x13ca, 24, 0, 3)) }
 			// every bit of the key information word alone, all set, none set; with and without key data
@@ -193,4 +193,16 @@ func (leapolkey) Gen(rng *rand.Rand, tier string) []Case {
 		},
 	}
 	return lmGen(leapolkeyDesc, g, rng, tier)
+}
+
+// ekSeeds: the EAPOL-Key bodies (EAPOL type 3, behind the 4-octet EAPOL header) of the EAPOL frames in the test files,
+// directly over Ethernet or behind LLC/SNAP
+func ekSeeds() [][]byte {
+	var out [][]byte
+	for _, s := range append(lnEthSeeds(0x888e), lsSnapSeeds(0x888e)...) {
+		if len(s) > 4 && s[1] == 3 {
+			out = append(out, s[4:])
+		}
+	}
+	return out
 }
